@@ -413,7 +413,7 @@ Record GInv (s : st) : Prop := {
   g_arb : forall k a, nth_error (arbs s) k = Some a -> arb_ok (pc s) k a;
   g_iss : issued s = false -> alive s = true /\ exitc s = None /\ has_exit (sysq s) = false;
   g_alive : alive s = false -> exitc s <> None;
-  g_ret : ret s = (if alive s then None else exitc s);
+  gi_ret : ret s = (if alive s then None else exitc s);
   g_reg : forall k a, nth_error (arbs s) k = Some a -> reg_ok (reg s) (sysq s) k a;
   g_doom : forall k a, nth_error (arbs s) k = Some a -> a_pre a = true -> issued s = true -> doomed s a;
   g_pc : pc s = length (olog s);
